@@ -194,12 +194,13 @@ def derive_fast_path(u):
         if t.kind == "ident" and t.text == "all" and code[k - 1].text == "." and code[k + 1].text == "(":
             close = rl.match_close(code, k + 1)
             inner = body[code[k + 1].end:code[close].start].strip()
-            m = re.match(r"\|c\|\s*(.*)$", inner, re.S)
+            m = re.match(r"\|(\w+)\|\s*(.*)$", inner, re.S)
             if not m:
                 raise Unsupported("must_be_valid_iden: `.all(..)` without a closure |c| ..")
-            preds.append(m.group(1).strip())
+            # R-param: the closure's parameter is brought to the name `c` (a renamed parameter is no reason to lose the proof)
+            preds.append(re.sub(r"\b%s\b" % re.escape(m.group(1)), "c", m.group(2).strip()))
     norm = rl.norm_ws(body)
-    if len(preds) != 2 or not re.search(r"name\.chars\(\) \.take\(1\) \.all\(.*\) && name\.chars\(\)\.all\(", norm):
+    if len(preds) != 2 or not re.search(r"name\s*\.chars\(\)\s*\.take\(1\)\s*\.all\(.*\)\s*&&\s*name\s*\.chars\(\)\s*\.all\(", norm):
         raise LostAnchor("must_be_valid_iden is no longer `name.chars().take(1).all(P1) && name.chars().all(P2)`")
     u.spec(DERIVE_SPEC, "ident::derive-fast-path-spec", props=P)
 
